@@ -97,8 +97,10 @@ pub fn parse_static_ratio(embedded: bool, input: TokenStream) -> TokenStream {
 fn parse_ratio_with_error(input: TokenStream) -> Result<(IBig, UBig, bool), ParseError> {
     let mut num_val: Option<_> = None;
     let mut num_neg = false;
+    let mut num_sign_marked = false;
     let mut den_val: Option<_> = None;
     let mut den_neg = false;
+    let mut den_sign_marked = false;
     let mut den_marked = false;
     let mut relaxed = false;
     let mut base_marked = false;
@@ -110,7 +112,7 @@ fn parse_ratio_with_error(input: TokenStream) -> Result<(IBig, UBig, bool), Pars
             TokenTree::Literal(lit) => {
                 if num_val.is_none() {
                     num_val = Some(lit.to_string());
-                } else if den_val.is_none() {
+                } else if den_val.is_none() && den_marked {
                     den_val = Some(lit.to_string());
                 } else if base.is_none() && base_marked {
                     base = Some(lit.to_string());
@@ -121,7 +123,7 @@ fn parse_ratio_with_error(input: TokenStream) -> Result<(IBig, UBig, bool), Pars
             TokenTree::Ident(ident) => {
                 if num_val.is_none() {
                     num_val = Some(ident.to_string())
-                } else if den_val.is_none() {
+                } else if den_val.is_none() && den_marked {
                     den_val = Some(ident.to_string());
                 } else if base.is_none() && ident == "base" {
                     base_marked = true
@@ -137,18 +139,30 @@ fn parse_ratio_with_error(input: TokenStream) -> Result<(IBig, UBig, bool), Pars
                         return Err(ParseError::InvalidDigit);
                     }
                 } else if punct.as_char() == '~' {
-                    if num_val.is_none() && den_val.is_none() {
+                    if num_val.is_none() && den_val.is_none() && !relaxed && !num_sign_marked {
                         relaxed = true;
                     } else {
                         return Err(ParseError::InvalidDigit);
                     }
                 } else if num_val.is_none() {
+                    // at most one sign is allowed
+                    if num_sign_marked {
+                        return Err(ParseError::InvalidDigit);
+                    }
+                    num_sign_marked = true;
+
                     if punct.as_char() == '-' {
                         num_neg = true;
                     } else if punct.as_char() != '+' {
                         return Err(ParseError::InvalidDigit);
                     }
                 } else if den_val.is_none() {
+                    // the sign of the denominator comes after the slash, and at most once
+                    if !den_marked || den_sign_marked {
+                        return Err(ParseError::InvalidDigit);
+                    }
+                    den_sign_marked = true;
+
                     if punct.as_char() == '-' {
                         den_neg = true;
                     } else if punct.as_char() != '+' {
